@@ -406,6 +406,14 @@ fn gen_sched(prop: &str, case: &mut Case, w: &mut Rng, k: &mut Rng, knobs: &mut 
                         // count(*), or a query whose plan needs the column types of the table
                         // (sort, projection): binding and building are separate steps, the
                         // table can be dropped in between
+                        if w.chance(1, 5) {
+                            // two scans of one table in one statement: whatever runs alongside,
+                            // they have to see the same rows (always 0, NULLs or not)
+                            st.push(Stmt::Raw(format!(
+                                "SELECT count(*) FROM {t} WHERE c0 NOT IN (SELECT c0 FROM {t})"
+                            )));
+                            continue;
+                        }
                         let mut q = Query::star(&t);
                         match w.usize(3) {
                             0 => q.count = true,
